@@ -19,7 +19,8 @@ for p in sorted(glob.glob(f'{V}/evidence/C*.json')):
     n=c.get('traces_validated_against_impl', c.get('evaluations',''))
     rows.append("| %s | %s | %s | %s | %s | %s | %s |"%(d['property_id'],d['level'],d['tier'],d.get('wall_s',''),c.get('states',''),n,", ".join(sorted(c.get('known_findings_hit',{}).keys())) if isinstance(c.get('known_findings_hit'),dict) else ''))
 numbers="\n".join(rows)
-out=tpl.replace("@@FIXED@@",fixed).replace("@@FINDINGS@@",findings).replace("@@MATRIX@@",matrix).replace("@@NUMBERS@@",numbers)
+nseeded=len(glob.glob(f"{V}/seeded/C*-m*"))
+out=tpl.replace("@@NSEEDED@@",str(nseeded)).replace("@@FIXED@@",fixed).replace("@@FINDINGS@@",findings).replace("@@MATRIX@@",matrix).replace("@@NUMBERS@@",numbers)
 d=open(f'{V}/DESIGN.md').read()
 a=d.find("## 0. As built")
 b=d.find("## 1. What is being built")
